@@ -282,6 +282,14 @@ CHECKS["C03"] = {
     "level_note": "Trusts synctest's clock, the in-memory network and the fake targets' logs.",
 }
 CHECKS["C17"]["layers"].append(L("TestVF_C17_Drain", 1200, 15000))
+CHECKS["C17"]["layers"].append(L("TestVF_C17_Overlap", 400, 5000))
+CHECKS["C10"]["layers"].append(L("TestVF_C10_Overlap", 400, 5000))
+OVERLAP_RULE = (" Overlap layer (TestVF_%s_Overlap): 2-3 commands on ONE service (deploy, rollout deploy, rollout set, rollout stop), one "
+                "deploy-type command held at deploy.before-install or deploy.installed while the later ones run to completion, then "
+                "released; oracle needs no model of who wins: once every command has returned and the proxy is quiet, %s. "
+                "Non-trivial there = a command was really held while another ran.")
+CHECKS["C17"]["rule"] += OVERLAP_RULE % ("C17", "exactly the targets the saved state names receive health probes (none without an owner, none owned but unprobed)")
+CHECKS["C10"]["rule"] += OVERLAP_RULE % ("C10", "requests are answered by targets the service has, requests without the cookie by active ones, and the last `rollout set` / `rollout stop` to return decides whether cookie traffic goes to the rollout targets")
 CHECKS["C17"]["rule"] += (" TestVF_C17_Drain: C03's scenarios (redeploy / rollout redeploy / pause / stop with in-flight, upgraded and late "
                           "requests) with the command's return instant compared exactly with max(start, latest natural end of a drained "
                           "in-flight request capped by the drain deadline).")
@@ -335,7 +343,13 @@ CHECKS["C18"] = {
             "with boundary argument values the CLI accepts (zero / negative durations and sizes, out-of-range percentages, hostile "
             "messages); oracle: no panic in any goroutine (the process survives), the command returns, requests still end. Non-trivial = at least two operations touched the same service. Distinct by plan hash.",
     "layers": [L("TestVF_C18", 150, 2500, race_always=True, crash_is_violation=True, qtimeout=150, ttimeout=1800, qenv={"GORACE": "halt_on_error=0"}, tenv={"GORACE": "halt_on_error=0"}),
-               L("TestVF_C18_Hostile", 150, 2000, crash_is_violation=True, qtimeout=240, ttimeout=1800)],
+               L("TestVF_C18_Hostile", 150, 2000, crash_is_violation=True, qtimeout=240, ttimeout=1800),
+               L("TestVF_C18_LockStress", 5, 40, qshards=6, crash_is_violation=True, qtimeout=90, ttimeout=900)],
+    "rule_extra": " TestVF_C18_LockStress: 1-3 goroutines repeat pause / resume / stop on a service 200-800 times as fast as they can while "
+                  "1-4 others keep setting / stopping the split, listing, redeploying and routing requests (no hooks, no virtual-time waits); "
+                  "the case must end and leave a working proxy: a hang shows in the deadline's goroutine dump as goroutines blocked on sync "
+                  "locks inside kamal-proxy frames (windows of a few dozen nanoseconds, e.g. a recursive read lock a writer slips into, "
+                  "need this many repetitions).",
     "technique": "concurrency stress driven by property-based testing (rapid) under the Go race detector: generated operation lists on real goroutines, no gates",
     "level_text": "Bounded random exploration of overlapping operations; the race detector reports only pairs of accesses that were actually executed, so absence is never established.",
     "level_note": "Schedule is the Go scheduler's (not controlled, not replayable exactly); a replay re-runs the same operation lists up to 20 times.",
@@ -375,3 +389,5 @@ ARGS_RULE = (" CLI layer (TestVF_%s_Args): generated command lines for the comma
 for _id in ("C01", "C03", "C07", "C08", "C09", "C10", "C13", "C14", "C15", "C16", "C17", "C19"):
     CHECKS[_id]["layers"].append(L("TestVF_%s_Args" % _id, 300, 4000, shards=4, pkg="cmd"))
     CHECKS[_id]["rule"] += ARGS_RULE % _id
+
+CHECKS["C18"]["rule"] += CHECKS["C18"].pop("rule_extra")
